@@ -51,6 +51,15 @@ func init() {
 					{Name: "u2", Ops: []Op{{Op: "sub", H: "s", Name: "s"}, {Op: "upd", H: "s", M: "g", V: 4}, {Op: "upd", H: "s", M: "g", V: 1}}},
 					{Name: "p1", Ops: []Op{{Op: "pass"}, {Op: "pass"}, {Op: "pass"}, {Op: "pass"}}},
 				}}})
+			// two goroutines obtain a gauge of a scope for the first time at the same moment (one of them updates it), on a
+			// root whose sanitizer rewrites the name: the update must reach the reporter with the next pass
+			out = append(out, scenarioSet{mode: "dfs", maxExec: 1500, sc: &Scenario{
+				Name: "c02-firstuse-sanitized-" + rep, Reporter: rep, Gauge: "plain", Sanitize: true,
+				Points: []string{"op_get", "gg_probe", "gg_lock", "rp_alloc", "op_upd", "op_pass"},
+				Threads: []ThreadSpec{
+					{Name: "u1", Ops: []Op{{Op: "get", H: "root", M: "x-y", K: "gauge"}, {Op: "upd", H: "root", M: "x-y", V: 1}, {Op: "pass"}}},
+					{Name: "u2", Ops: []Op{{Op: "get", H: "root", M: "x-y", K: "gauge"}}},
+				}}})
 		}
 		return out
 	}
